@@ -1331,6 +1331,32 @@ fn main() {
             },
         }
     }
+    // ---- regression corpus: canonical inputs of fixed findings must hold
+    if let Ok(rd) = std::fs::read_dir(vcore::verif_root().join("known/C20/fixed")) {
+        let mut files: Vec<_> = rd.flatten().map(|e| e.path()).filter(|p| p.extension().is_some_and(|e| e == "json")).collect();
+        files.sort();
+        for fpath in files {
+            let text = std::fs::read_to_string(&fpath).unwrap_or_default();
+            let name = fpath.file_stem().map(|s| s.to_string_lossy().to_string()).unwrap_or_default();
+            match case_from(&text) {
+                None => out.inconclusive(&format!("regression input {} unreadable", fpath.display())),
+                Some((c, pname)) => {
+                    for i in 0..c.pairs.len() {
+                        ev.case(pair_id(&c, i));
+                    }
+                    ev.class("regression-input");
+                    match run_case(f, &c, &pname).0 {
+                        Verdict::Pass => {}
+                        Verdict::Fail { key, detail } => {
+                            out.violation(&mut ev, &format!("regression:{name}"), "json", &text, &format!("a fixed finding is back ({key})\n{detail}"));
+                        }
+                        Verdict::Discard(r, d) => out.inconclusive(&format!("regression input {name}: {r}: {d}")),
+                        Verdict::Infra(e) => out.inconclusive(&format!("regression input {name}: {e}")),
+                    }
+                }
+            }
+        }
+    }
     let force_clone = std::env::var("VERIF_C20_FORCE_CLONE").is_ok();
     let allow = Allow { clone: !out.is_known(K_CLONE) || force_clone, class_nomethod: !out.is_known(K_CLASS_NOMETHOD) };
 
